@@ -313,24 +313,40 @@ theorem step_invN_jobDrop {s s' : State} {k : Nat} (inv : InvN s) (hstep : step 
       disj := inv.disj }
   · simp at hstep
 
+theorem step_invN_jobAbandon {s s' : State} {id : Nat} (inv : InvN s) (hstep : step s (.jobAbandon id) = some s') :
+    InvN s' := by
+  simp only [step] at hstep
+  injection hstep with hstep; subst hstep
+  have hsub : ∀ h, h ∈ s.retained.filter (fun h => h.id != id) → h ∈ s.retained :=
+    fun h hh => (List.mem_filter.mp hh).1
+  exact {
+    inst := fun i x hx => { inv.inst i x hx with }
+    safe := by
+      intro f hf
+      rcases (mem_neededN f).mp hf with hl | ⟨h, hh, hr⟩
+      · exact inv.safe _ ((mem_neededN _).mpr (Or.inl hl))
+      · exact inv.safe _ ((mem_neededN _).mpr (Or.inr ⟨h, hsub h hh, hr⟩))
+    own := fun h hh => inv.own h (hsub h hh)
+    disj := inv.disj }
+
 theorem step_invN_openFresh {s s' : State} {r : KGRange} {g : Nat} {n : List KGRange} {dir : Nat} (inv : InvN s)
     (hdir : dir = s.insts.length) (hstep : step s (.openFresh r g n dir) = some s') : InvN s' := by
   simp only [step] at hstep
   injection hstep with hstep; subst hstep
-  have hnew : ∀ (j : Nat) (x : Inst), (s.insts ++ [({ gen := g, range := r, nbrs := n, dir := dir } : Inst)])[j]? = some x →
-      s.insts[j]? = some x ∨ (j = s.insts.length ∧ x = { gen := g, range := r, nbrs := n, dir := dir }) := by
+  have hnew : ∀ (j : Nat) (x : Inst), (s.insts ++ [(freshInst r g n dir s.insts.length)])[j]? = some x →
+      s.insts[j]? = some x ∨ (j = s.insts.length ∧ x = (freshInst r g n dir s.insts.length)) := by
     intro j x hj
     rcases Nat.lt_trichotomy j s.insts.length with hlt | heq | hgt
     · rw [List.getElem?_append_left hlt] at hj; exact Or.inl hj
     · subst heq
-      have : (s.insts ++ [({ gen := g, range := r, nbrs := n, dir := dir } : Inst)])[s.insts.length]? =
-          some { gen := g, range := r, nbrs := n, dir := dir } := by simp
+      have : (s.insts ++ [(freshInst r g n dir s.insts.length)])[s.insts.length]? =
+          some (freshInst r g n dir s.insts.length) := by simp
       rw [this] at hj; injection hj with hj
       exact Or.inr ⟨rfl, hj.symm⟩
-    · have : (s.insts ++ [({ gen := g, range := r, nbrs := n, dir := dir } : Inst)]).length ≤ j := by simp; omega
+    · have : (s.insts ++ [(freshInst r g n dir s.insts.length)]).length ≤ j := by simp; omega
       rw [List.getElem?_eq_none this] at hj; cases hj
   have hold : ∀ (j : Nat) (x : Inst), s.insts[j]? = some x →
-      (s.insts ++ [({ gen := g, range := r, nbrs := n, dir := dir } : Inst)])[j]? = some x := by
+      (s.insts ++ [(freshInst r g n dir s.insts.length)])[j]? = some x := by
     intro j x hj
     have hlt : j < s.insts.length := by
       rcases Nat.lt_or_ge j s.insts.length with hlt | hge
@@ -662,6 +678,7 @@ theorem step_invN {s s' : State} {a : Act} (inv : InvN s) (hsc : inScopeN s a = 
   | crash i => exact step_invN_simple inv trivial hstep
   | redeployFailed i => exact step_invN_simple inv trivial hstep
   | jobDrop k => exact step_invN_jobDrop inv hstep
+  | jobAbandon id => exact step_invN_jobAbandon inv hstep
   | ckpt i id wal => exact step_invN_ckpt inv hstep
   | retain i ids => exact step_invN_retain inv (by simpa [inScopeN] using hsc) hstep
   | collect i u answers => exact step_invN_collect inv hstep
